@@ -835,7 +835,12 @@ func checkC13(c *core.Ctx, r *core.Report) {
 		}
 		var matchCalls []*ssa.Call
 		var otherGuards []*ssa.Call
-		for _, ci := range core.CallsIn(fn) {
+		// over the function and the helpers of the cone (the enumeration loops may have moved into one)
+		var coneCalls []ssa.CallInstruction
+		for _, cf := range cone {
+			coneCalls = append(coneCalls, core.CallsIn(cf)...)
+		}
+		for _, ci := range coneCalls {
 			call, ok := ci.(*ssa.Call)
 			if !ok {
 				continue
@@ -866,7 +871,7 @@ func checkC13(c *core.Ctx, r *core.Report) {
 		nAdm := 0
 		for _, g := range otherGuards {
 			// a boolean function value that is not (only) a regexp match decides inside an enumeration loop
-			if lp := core.InnermostLoop(core.Loops(fn), g.Block()); lp != nil {
+			if lp := core.InnermostLoop(core.Loops(g.Parent()), g.Block()); lp != nil {
 				if _, isIf := core.LastIf(g.Block()); isIf || true {
 					nAdm++
 					r.Violation("FILTER", fmt.Sprintf("%s:name-admitted-by-a-regexp-match#%d", name, nAdm), c.Pos(g.Pos()), "inside the enumeration of the tenant's index / alias names the decision is taken by a function value that is not (only) a match of the anchored regular expression: a shortcut (prefix / suffix comparison) does not mean the same as the expression for expressions with several wildcards, so indexes the expression does not name are searched or deleted")
